@@ -186,7 +186,8 @@ class BindRule(S.SeqRule):
         return (None, None)
 
     def inline(self, fn, nid, callee):
-        return False
+        # a helper of the same unit that wraps bind() is looked into (its result is the bind's)
+        return callee.static and callee.file == fn.file and callee is not fn and any(True for _ in callee.calls("bind")) and not any(True for _ in callee.calls("connect"))
 
     def call_class(self, fn, st, nid, callees, exts):
         return None
@@ -202,11 +203,17 @@ class BindRule(S.SeqRule):
         return None
 
     def on_call(self, fn, st, nid, callees, exts):
+        if any(self.inline(fn, nid, d) for d in callees):
+            return (st.user[0], ("via", nid))
         if "bind" in exts:
+            if isinstance(st.user[1], tuple) and st.user[1][0] == "via":
+                return None         # inside the wrapper: the caller tests the wrapper's result
             return (st.user[0], nid)
         if "connect" in exts:
             self.nconn += 1
             local, b = st.user
+            if isinstance(b, tuple):
+                b = b[1]
             if local and b is None:
                 if "nobind" not in self.bad:
                     self.bad.add("nobind")
